@@ -72,6 +72,8 @@ func (c *Ctx) observeList(l, twin string, obs string) {
 	case "contains":
 		m.Contains(l, gvInt(1))
 		m.IndexOf(l, gvInt(2))
+		m.IndexOf(l, gvBool(true))
+		m.IndexOf(l, gvInt(40))
 	case "sublist":
 		m.SubList(l, 0, 0)
 	case "concat":
@@ -80,6 +82,12 @@ func (c *Ctx) observeList(l, twin string, obs string) {
 		m.GetTF(l, "#0")
 		m.TypeOfTF(l, "#1")
 		m.GetTF(l, "#3#0")
+		// paths into the nested containers, which change without the root knowing
+		m.GetTF(l, "#3#2")
+		m.TypeOfTF(l, "#3#2")
+		m.GetTF(l, "#4.a")
+		m.GetTF(l, "#4.z")
+		m.TypeOfTF(l, "#4.z")
 	case "nativeslice":
 		m.NativeSlice(l)
 	case "allk":
@@ -117,7 +125,7 @@ func (c *Ctx) observeList(l, twin string, obs string) {
 
 // listMutators: every way the content of a list can change, including through a nested handle.
 var listMutators = []string{"settf-samekind", "add", "insert0", "insertmid", "replace0", "replacelast", "delete0", "deletelast", "pop", "clear", "reverse",
-	"settf-leaf", "settf-beyond", "unsettf", "sort", "inner-add", "inner-set", "settf-deep", "add-bool", "replace-samekind", "rejected-batch", "rejected-insert", "none"}
+	"settf-leaf", "settf-beyond", "unsettf", "sort", "inner-add", "inner-set", "settf-deep", "add-bool", "replace-samekind", "rejected-batch", "rejected-insert", "dup-front", "dup-replace0", "none"}
 
 func (c *Ctx) mutateList(l, inner, innerO string, mut string) {
 	m := c.M
@@ -150,6 +158,14 @@ func (c *Ctx) mutateList(l, inner, innerO string, mut string) {
 	case "rejected-batch":
 		// a call that panics on its last value: whatever it leaves behind, every observer has to cope with
 		m.Add(l, gvInt(40), gvStr("ok"), gvUnsupported(0))
+	case "dup-front":
+		// an element equal to a later one now stands before it: a remembered position is stale
+		m.Insert(l, 0, gvInt(2))
+		m.Insert(l, 0, gvBool(true))
+	case "dup-replace0":
+		if n > 0 {
+			m.Replace(l, 0, gvInt(2))
+		}
 	case "rejected-insert":
 		m.Insert(l, n/2, gvUnsupported(1))
 		m.Replace(l, n+5, gvInt(1))
@@ -409,6 +425,11 @@ func (c *Ctx) observeObj(o, twin string, obs string) {
 	case "ogettf":
 		m.OGetTF(o, ".a")
 		m.OTypeOfTF(o, ".l#0")
+		m.OGetTF(o, ".l#2")
+		m.OTypeOfTF(o, ".l#2")
+		m.OGetTF(o, ".o.k")
+		m.OGetTF(o, ".o.z")
+		m.OTypeOfTF(o, ".o.z")
 	case "nativedict":
 		m.NativeDict(o)
 	case "oforeach":
@@ -768,6 +789,28 @@ func (c *Ctx) derivedCorners(prop string) {
 		m.Contains(lholder, m.RefGV(dL))
 		m.IndexOf(lholder, m.RefGV(dO))
 		m.Contains(lholder, m.RefGV(rawL))
+	}
+	// observers called on the derived values themselves leave the registration alone
+	switch prop {
+	case "C16", "C19", "C01", "C02", "C07", "C08", "C13":
+		m.FormatString(dL, 2)
+		m.OFormatString(dO, 2)
+		m.String(dL)
+		m.OString(dO)
+		m.Clone(dL)
+		m.OClone(dO)
+		m.NativeSlice(dL)
+		m.NativeDict(dO)
+		m.Equals(dL, dL)
+		m.OEquals(dO, dO)
+		m.Ego(dL)
+		m.Ego(dO)
+		m.Ego(rawL)
+		m.Ego(rawO)
+		m.Add(dL, gvInt(8))
+		m.OSet(dO, gvStr("q"), gvInt(8))
+		m.OGet(holder, "tags")
+		m.OGet(holder, "meta")
 	}
 	c.St.Eval("derived-corners:"+prop, true)
 }
@@ -1140,4 +1183,218 @@ func (c *Ctx) nilArguments() {
 		m.EqualsNil(t)
 	}
 	c.St.Eval("nil-arguments", true)
+}
+
+// lateDerived: containers that were stored first and registered as the embedded part of a user type afterwards
+// (Init on the outer value re-registers the ego pointer of the stored implementation).  What is stored is then the
+// embedded value, what every read hands out is the registered outer value: the two differ.
+func (c *Ctx) lateDerived(prop string) {
+	m := c.M
+	m.Case("late-derived")
+	rawL := m.NewList(gvInt(1), gvInt(2))
+	rawO := m.NewObject(gvStr("k"), gvInt(1))
+	holder := m.NewObject(gvStr("l"), m.RefGV(rawL), gvStr("o"), m.RefGV(rawO), gvStr("n"), gvInt(1))
+	lholder := m.NewList(m.RefGV(rawL), m.RefGV(rawO), gvInt(0))
+	dL := m.Derive(rawL)
+	dO := m.Derive(rawO)
+	_, _ = dL, dO
+	switch prop {
+	case "C10":
+		c.readPath(holder, ".l")
+		c.readPath(holder, ".o")
+		c.readPath(holder, ".l#0")
+		c.readPath(holder, ".o.k")
+		c.readPath(lholder, "#0")
+		c.readPath(lholder, "#1")
+		c.readPath(lholder, "#0#1")
+		c.readPath(lholder, "#1.k")
+	case "C15":
+		m.ForEachAsync(lholder)
+		m.OForEachAsync(holder)
+		m.MapAsync(lholder, &Fn{Name: "id"})
+		m.OMapAsync(holder, &Fn{Name: "id"})
+		m.ForEach(lholder)
+		m.OForEach(holder)
+	case "C14":
+		m.ForEach(lholder)
+		m.OForEach(holder)
+		for _, k := range []byte("ol") {
+			m.ForEachK(lholder, k)
+			m.OForEachK(holder, k)
+			m.SliceK(lholder, k)
+			m.MapK(lholder, k, &Fn{Name: "id"})
+			m.OMapK(holder, k, &Fn{Name: "id"})
+			m.FilterK(lholder, k, "all")
+		}
+		m.Map(lholder, &Fn{Name: "id"})
+		m.OMap(holder, &Fn{Name: "id"})
+		m.Filter(lholder, "all")
+	case "C19", "C05", "C06":
+		m.Get(lholder, 0)
+		m.Get(lholder, 1)
+		m.GetK(lholder, 'l', 0)
+		m.GetK(lholder, 'o', 1)
+		m.Slice(lholder)
+		m.OGet(holder, "l")
+		m.OGet(holder, "o")
+		m.OGetK(holder, 'l', "l")
+		m.OGetK(holder, 'o', "o")
+		m.Dict(holder)
+		m.Values(holder)
+		m.Contains(lholder, m.RefGV(dL))
+		m.IndexOf(lholder, m.RefGV(dO))
+		m.OContains(holder, m.RefGV(dL))
+		m.KeyOf(holder, m.RefGV(dO))
+		m.GetTF(lholder, "#0")
+		m.OGetTF(holder, ".o")
+	case "C13":
+		m.Slice(lholder)
+		m.Dict(holder)
+		m.NativeSlice(lholder)
+		m.NativeDict(holder)
+	case "C16":
+		m.FormatString(lholder, 2)
+		m.OFormatString(holder, 2)
+	}
+	// no observer re-registers anything: the registered values are what they were
+	m.Ego(dL)
+	m.Ego(dO)
+	m.Ego(rawL)
+	m.Get(lholder, 0)
+	m.OGet(holder, "o")
+	c.St.Eval("late-derived:"+prop, true)
+}
+
+// reentrant: callbacks that READ the container they are iterating (or call the same operation on it again).
+// The model's callbacks are pure functions of their arguments, so this is monitored on the implementation alone,
+// against a reference computed from Slice() / Dict().
+func (c *Ctx) reentrant(prop string) {
+	m := c.M
+	m.Case("re-entrant-callbacks")
+	alarm := func(what string, got, want any) {
+		m.Alarm(prop, fmt.Sprintf("re-entrant callback: %s: got %v, reference %v", what, got, want))
+	}
+	guard := func(what string, f func()) {
+		defer func() {
+			if r := recover(); r != nil {
+				m.Alarm(prop, fmt.Sprintf("re-entrant callback: %s panics: %v", what, r))
+			}
+		}()
+		f()
+	}
+	for _, elems := range [][]any{{2, "b", 3, 4, 2, "a", "b", 4.5, 4.5, true}, {1, 1, 1}, {1, 2, 3, 4, 5, 6, 7, 8, 9}, {"x"}, {}} {
+		l := at.NewList(elems...)
+		ref := l.Slice()
+		count := func(v any) int {
+			n := 0
+			for _, w := range ref {
+				if w == v {
+					n++
+				}
+			}
+			return n
+		}
+		var wantOnce []any
+		for _, v := range ref {
+			if count(v) == 1 {
+				wantOnce = append(wantOnce, v)
+			}
+		}
+		guard("Filter in Filter", func() {
+			got := l.Filter(func(v any) bool { return l.Filter(func(w any) bool { return w == v }).Count() == 1 }).Slice()
+			if fmt.Sprint(got) != fmt.Sprint(wantOnce) {
+				alarm(fmt.Sprintf("%v.Filter(v occurs once, counted by an inner Filter on the same list)", ref), got, wantOnce)
+			}
+		})
+		guard("FilterInts in FilterInts", func() {
+			got := l.FilterInts(func(v int) bool { return l.FilterInts(func(w int) bool { return w == v }).Count() == 1 }).Slice()
+			var want []any
+			for _, v := range ref {
+				if i, ok := v.(int); ok && count(i) == 1 {
+					want = append(want, v)
+				}
+			}
+			if fmt.Sprint(got) != fmt.Sprint(want) {
+				alarm(fmt.Sprintf("%v.FilterInts nested", ref), got, want)
+			}
+		})
+		guard("Map reading the list", func() {
+			got := l.Map(func(i int, v any) any { return l.Count()*100 + l.IndexOf(v)*10 + l.Map(func(int, any) any { return nil }).Count() }).Slice()
+			var want []any
+			for _, v := range ref {
+				first := 0
+				for j, w := range ref {
+					if w == v {
+						first = j
+						break
+					}
+				}
+				want = append(want, len(ref)*100+first*10+len(ref))
+			}
+			if fmt.Sprint(got) != fmt.Sprint(want) {
+				alarm(fmt.Sprintf("%v.Map(Count, IndexOf, inner Map)", ref), got, want)
+			}
+		})
+		guard("ForEach in ForEach", func() {
+			n := 0
+			var seen []any
+			l.ForEach(func(i int, v any) {
+				l.ForEach(func(j int, w any) { n++ })
+				seen = append(seen, v)
+			})
+			if n != len(ref)*len(ref) || fmt.Sprint(seen) != fmt.Sprint(ref) {
+				alarm(fmt.Sprintf("%v.ForEach nested", ref), fmt.Sprint(n, seen), fmt.Sprint(len(ref)*len(ref), ref))
+			}
+		})
+		guard("Reduce reading the list", func() {
+			got := l.Reduce(0, func(acc any, v any) any {
+				if l.Contains(v) && l.String() != "" {
+					return acc.(int) + 1
+				}
+				return acc
+			})
+			if got != any(len(ref)) {
+				alarm(fmt.Sprintf("%v.Reduce(Contains, String)", ref), got, len(ref))
+			}
+		})
+		guard("Filter on the receiver passed as argument", func() {
+			cc := l.Concat(l)
+			if cc.Count() != 2*len(ref) || !cc.SubList(0, len(ref)).Equals(l) && len(ref) > 0 {
+				alarm(fmt.Sprintf("%v.Concat(itself)", ref), cc.Slice(), "the list twice")
+			}
+			if !l.Equals(l) || fmt.Sprint(l.Slice()) != fmt.Sprint(ref) {
+				alarm(fmt.Sprintf("%v after Concat(itself) / Equals(itself)", ref), l.Slice(), ref)
+			}
+		})
+		if fmt.Sprint(l.Slice()) != fmt.Sprint(ref) {
+			alarm("the list after the re-entrant calls", l.Slice(), ref)
+		}
+	}
+	o := at.NewObject("a", 1, "b", 2, "c", 1, "d", "x", "e", 2.5)
+	refD := o.Dict()
+	guard("object Map reading the object", func() {
+		got := o.Map(func(k string, v any) any { return o.Count()*10 + o.Map(func(string, any) any { return 0 }).Count() }).Dict()
+		for k := range refD {
+			if got[k] != any(len(refD)*10+len(refD)) {
+				alarm("object Map(Count, inner Map) at key "+k, got[k], len(refD)*10+len(refD))
+			}
+		}
+		if len(got) != len(refD) {
+			alarm("object Map result size", len(got), len(refD))
+		}
+	})
+	guard("object ForEach in ForEach", func() {
+		n := 0
+		o.ForEach(func(k string, v any) { o.ForEach(func(string, any) { n++ }); _ = o.KeyOf(v) })
+		if n != len(refD)*len(refD) {
+			alarm("object ForEach nested", n, len(refD)*len(refD))
+		}
+	})
+	guard("Merge / Equals with itself", func() {
+		mm := o.Merge(o)
+		if !mm.Equals(o) || !o.Equals(o) || o.Count() != len(refD) {
+			alarm("object Merge(itself)", mm.Dict(), refD)
+		}
+	})
+	c.St.Eval("re-entrant:"+prop, true)
 }
